@@ -265,7 +265,7 @@ def walk(ctx, phase):
     # status codes
     for name in E.SCSI_STATUS.keys:
         val = getattr(E.SCSI_STATUS, name)
-        ref = O.STATUS.get(name)
+        ref = O.STATUS.get(name, O.STATUS_OPTIONAL.get(name))
         ctx.case("status:%s:%s" % (phase, name), ref is not None, sample={"status": name, "value": val, "reference": ref})
         if ref is None:
             ctx.add("unreferenced_status_names", name)
